@@ -81,6 +81,7 @@ func init() {
 				try("gounions", func() []generator.Declaration { return gounions.Generate(an) })
 				try("randdata", func() []generator.Declaration { return randdata.Generate(an) })
 				try("sqlcrud", func() []generator.Declaration { return sqlcrud.Generate(an, false) })
+				try("sqlcrud_sets", func() []generator.Declaration { return sqlcrud.Generate(an, true) })
 				func() {
 					defer func() { recover() }()
 					for _, o := range dart.Generate(filepath.Dir(target), []*analysis.Analysis{an}) {
